@@ -76,6 +76,8 @@ def emissions(w, f):
             det['cast'] = is_opcode_cast(f, bi, args[0], defs)
             if not det['cast']:
                 opn = None
+            if is_dynamic_opcode(f, bi, args[0], defs):
+                det['dynop'] = True
         elif kind == 'bytes':
             pl = op_place(args[0])
             r = defs.get(pl['l']) if pl else None
@@ -84,8 +86,12 @@ def emissions(w, f):
                 opn, raw = operand_opcode(w, f, bi, first, defs)
                 if not is_opcode_cast(f, bi, first, defs):
                     opn = None
+                if is_dynamic_opcode(f, bi, first, defs):
+                    det['dynop'] = True
                 det['raw'] = raw
                 det['second'] = second
+                if is_opcode_cast(f, bi, second, defs):
+                    det['second_op'] = operand_opcode(w, f, bi, second, defs)[0]
         elif kind in ('constant_op', 'variable_op', 'jump'):
             opn, raw = operand_opcode(w, f, bi, args[0], defs)
             if opn is None:
@@ -132,3 +138,41 @@ def all_clean_paths_pass(f, through, start=0):
             return False
         stack.extend(f.succs()[b])
     return True
+
+
+def is_dynamic_opcode(f, bi, o, defs):
+    """operand is `<place of type OpCode> as u8`: an opcode chosen by the caller"""
+    pl = op_place(o)
+    if pl is None:
+        return False
+    r = defs.get(pl['l'])
+    while r is not None and r.get('rv') == 'use' and op_place(r['o']) is not None:
+        r = defs.get(op_place(r['o'])['l'])
+    if r is None or r.get('rv') != 'cast' or 'IntToInt' not in r['ck']:
+        return False
+    src = op_place(r['o'])
+    if src is None:
+        return False
+    # through the discriminant read: `_d = discriminant(op); _b = _d as u8`
+    rr = defs.get(src['l'])
+    if rr is not None and rr.get('rv') == 'discr':
+        t = f.crate.ty(f.crate.peel_refs(rr['p'].get('t', f.local_ty(rr['p']['l']))))
+        return t.get('n') == 'yarel::chunk::OpCode'
+    t = f.crate.ty(f.crate.peel_refs(src.get('t', f.local_ty(src['l']))))
+    return t.get('n') == 'yarel::chunk::OpCode'
+
+
+def fn_defs(f):
+    """local -> defining rvalue for locals assigned exactly once in the whole function"""
+    cnt = {}
+    defs = {}
+    for b in f.blocks:
+        for s in b['s']:
+            d = s.get('d')
+            if d and not d.get('p'):
+                cnt[d['l']] = cnt.get(d['l'], 0) + 1
+                defs[d['l']] = s['r']
+        t = b['t']
+        if t['t'] == 'call' and not t['dst'].get('p'):
+            cnt[t['dst']['l']] = cnt.get(t['dst']['l'], 0) + 1
+    return {l: r for l, r in defs.items() if cnt.get(l) == 1}
